@@ -31,6 +31,16 @@
 // time-out / cancellation / Close; cancel / time-out -> that call; Close -> all); Close returns; a call never
 // completes with neither a response nor an error; no panic in callers or recovered inside the client's loops; no loop of the client spins for ever.
 //
+// Part B (configurations with part=B) explores one class in depth: callers give up (C<i>, T<i>) AFTER their
+// request was written to the stream and the server answers those requests LATER (A:<p> stays enabled for a
+// request whose caller has gone), in all orders relative to the events of the other calls, followed by further
+// calls - plain ones (with a time-out) and asynchronous ones (S<i>a, no deadline at all; a default event in this
+// part) - on a store that is healthy: no stream is dropped, no write fails, nothing is closed. Limits 1, 2 (3 in
+// the thorough tier) and the default. The healthy-store oracle (explore.go: request-never-sent /
+// call-never-returns / slot-accounting) is evaluated in every configuration of both parts, and every execution
+// ends with the drain epilogue (answer everything, wake the send loop with a high-priority probe call, repeat)
+// before the final Close.
+//
 // Nothing is decided by wall-clock time. If quiescence cannot be established, or an execution took
 // longer than 0.5 s (a real timer of gRPC could have fired), the execution is repeated and finally
 // counted as inconclusive (exhaustive:false). A violation is believed only if three re-executions
@@ -433,10 +443,13 @@ func tierConfigs(thorough bool) []Config {
 		}
 	}
 	return []Config{
-		{Part: "B", Callers: 5, MaxF: 4, Conns: 1, Limit: 1},
-		{Part: "B", Callers: 5, MaxF: 4, Conns: 1, Limit: 2},
-		{Part: "B", Callers: 5, MaxF: 4, Conns: 1, Limit: 3},
-		{Part: "B", Callers: 5, MaxF: 3, Conns: 1},
+		// part B (see the quick tier), deeper: more callers / more callers that give up, limit 3, two connections
+		{Part: "B", Callers: 4, MaxF: 4, Conns: 1, Limit: 1},
+		{Part: "B", Callers: 4, MaxF: 4, Conns: 1, Limit: 2},
+		{Part: "B", Callers: 4, MaxF: 3, Conns: 1},
+		{Part: "B", Callers: 5, MaxF: 3, Conns: 1, Limit: 1},
+		{Part: "B", Callers: 5, MaxF: 2, Conns: 1, Limit: 2},
+		{Part: "B", Callers: 5, MaxF: 2, Conns: 1, Limit: 3},
 		{Part: "B", Callers: 4, MaxF: 3, Conns: 2, Limit: 1},
 		{Callers: 3, MaxF: 3, Conns: 1, Limit: 2, Variants: true, Stale: true, AddrX: true},
 		{Callers: 2, MaxF: 4, Conns: 1, Variants: true, Stale: true, AddrX: true},
